@@ -8,19 +8,20 @@ package object
 import (
 	"io"
 	"path/filepath"
+	"sync"
 )
 
 // NewEnv makes new environment of variables.
 func NewEnv() *Env {
 	s := make(map[SymHash]PanObject)
-	return &Env{s, nil}
+	return &Env{Store: s, outer: nil}
 }
 
 // NewEnclosedEnv makes new environment of variables inside e.
 // It is used to make closure.
 func NewEnclosedEnv(e *Env) *Env {
 	s := make(map[SymHash]PanObject)
-	return &Env{s, e}
+	return &Env{Store: s, outer: e}
 }
 
 // NewEnvWithConsts makes new global environment, which includes all standart objects.
@@ -71,9 +72,11 @@ func NewEnvWithConsts() *Env {
 func NewCopiedEnv(env *Env) *Env {
 	newStore := map[SymHash]PanObject{}
 	// copy all variables to new store
+	env.lock.RLock()
 	for k, v := range env.Store {
 		newStore[k] = v
 	}
+	env.lock.RUnlock()
 
 	return &Env{
 		Store: newStore,
@@ -85,11 +88,16 @@ func NewCopiedEnv(env *Env) *Env {
 type Env struct {
 	Store map[SymHash]PanObject
 	outer *Env
+	// NOTE: lock is necessary because evaluations running at the same time
+	// (like handlers of http server and the main script) share their outer envs
+	lock sync.RWMutex
 }
 
 // Get fetches variable value from the environment.
 func (e *Env) Get(h SymHash) (PanObject, bool) {
+	e.lock.RLock()
 	obj, ok := e.Store[h]
+	e.lock.RUnlock()
 
 	// if not found, search outer scope
 	if !ok && e.outer != nil {
@@ -101,12 +109,16 @@ func (e *Env) Get(h SymHash) (PanObject, bool) {
 
 // Set sets variable to the environment.
 func (e *Env) Set(h SymHash, obj PanObject) {
+	e.lock.Lock()
 	e.Store[h] = obj
+	e.lock.Unlock()
 }
 
 // Items returns all variables in the environment as obj.
 func (e *Env) Items() PanObject {
 	pairs := make(map[SymHash]Pair)
+	e.lock.RLock()
+	defer e.lock.RUnlock()
 	for h, obj := range e.Store {
 		strObj, ok := SymHash2Str(h)
 
